@@ -1,7 +1,14 @@
 SPEC = dict(
     property='C02',
     level='other',
-    level_text='Mixed. PROVED deductively (A-REAL, every real mass, charge, isotope, loss, precision, all 18 ion types incl. the KeyError '
+    level_text='Mixed. PROVED deductively (record model of the annotation, any peptide): the real mass() hands to the ion adjustment exactly the '
+               'SUM OF THE PARTS -- residue masses from the real table (fold over the residues), every modification\'s mass wherever it is '
+               'written (N-terminus, C-terminus, every residue position, every interval, unknown position; labile ones for the precursor '
+               'ion type only), and for every global static rule the mass of its modifications once per terminal target / times the number '
+               'of occurrences of a residue target (nine loop invariants over fold / finite-sum spec functions; modification multipliers are '
+               'inside the pure callee mod_mass); charge, adducts and isotope label default to the annotation\'s own; B / Z and unknown '
+               'residues raise their ValueError-family errors and nothing else is raised; a labelled peptide goes through the composition '
+               'calculator; mz() is mass() at the resolved charge passed to adjust_mz. ALSO PROVED (A-REAL, every real mass, charge, isotope, loss, precision, all 18 ion types incl. the KeyError '
                'for an unknown one): the real adjust_mass returns base + charge carrier + the ion type\'s neutral offset + isotope x neutron + '
                'loss (verbatim), with the carrier = charge x proton for p/n, (charge-1) x proton + the type\'s ionisation offset for fragment '
                'types, or the adduct mass; adjust_mz divides by the charge -- over the real offset tables dumped from the real modules on '
@@ -9,18 +16,22 @@ SPEC = dict(
                'modifications of a-priori known mass x multipliers x 9 parameter tuples x adduct lists) against an independent exact-'
                'rational reference built from NIST atomic masses typed into specs/nist.py; residue / particle tables against NIST.',
     level_note='A-REAL (floats as reals; the 1e-5 / 2e-3 tolerances of the statement apply in the bounded tier). round() uninterpreted. '
-               'mass() itself (dict/str iteration over the annotation, resolver calls) is bounded only in this revision. '
+               'mod_mass (resolver, multiplier), parse_static_mods, comp_mass are pure callees of the mass() proof (bounded-checked); "plus water" is the '
+               'neutral offset of ion type p inside adjust_mass (ground value checked under C05). '
                '_parse_charge_adducts_mass assumed pure (bounded-checked).',
     design_ref='DESIGN.md section 6, C02',
-    contracts=['masscalc'],
+    contracts=['masscalc', 'masssum'],
+    technique='weakest-precondition VCs from the real AST of mass(), mz(), adjust_mass, adjust_mz against sidecar contracts (fold and finite-sum spec functions, '
+              'real constant tables dumped on every run), discharged by z3 / cvc5; bounded comparison with an independent exact-rational reference from NIST masses as labelled stand-in for the numeric agreement',
     bounded=[dict(name='C02-bounded', script='bounded/C02.py')],
     replay_finder='bounded/C02.py',
     explanation='deductive obligations for adjust_mass / adjust_mz + bounded comparison of mass()/mz() with an independent reference',
-    proved_clauses=['adjust_mass: sum of parts incl. neutron per isotope step, loss verbatim, proton per charge / adduct mass / fragment carrier',
+    proved_clauses=['mass() = residues + every modification wherever written (labile for the precursor only) + static rules per target occurrence, then the ion adjustment; mz() = that mass over the charge',
+                    'adjust_mass: sum of parts incl. neutron per isotope step, loss verbatim, proton per charge / adduct mass / fragment carrier',
                     'adjust_mz: mass / charge (mass itself for charge 0)'],
-    bounded_clauses=['mass() = residues + water + every modification x multiplier wherever written (labile for the precursor), both modes',
+    bounded_clauses=['numeric agreement of mass()/mz() with the independent NIST reference (1e-5 / 2e-3), modification multipliers, both modes',
                      'tables vs NIST within 1e-5 (mono) / 2e-3 (average)', 'adduct lists = exactly the stated ions (known finding recorded)'],
     uncovered_clauses=['every Unimod entry as a modification of mass(): covered per entry under C10, not here'],
-    assumptions=['A-REAL: machine floats treated as mathematical reals', 'oracle constants typed in from NIST/CODATA (specs/nist.py)'],
+    assumptions=['A-REAL: machine floats treated as mathematical reals', 'A-FINSUM', 'SPEC-FOLD', 'oracle constants typed in from NIST/CODATA (specs/nist.py)'],
     trusted_base=['z3 5.1', 'pyvc AST->VC translation', 'specs/nist.py'],
 )
